@@ -183,7 +183,12 @@ func (pq *productQuantizer) Fit() error {
 	if len(pq.flatCentroids) != 0 {
 		return nil
 	}
-	itemCount := pq.items.Count()
+	// A failure to count must fail the fit: answering "not enough points yet"
+	// would let the write go through although a storage operation failed.
+	itemCount, countErr := pq.items.CountOrError()
+	if countErr != nil {
+		return countErr
+	}
 	if itemCount < pq.params.TriggerThreshold {
 		return nil
 	}
